@@ -353,6 +353,10 @@ func (viso *VirtualISO) makeDirEntries(item *dirItem, joliet bool) error {
 				lba += multiExtentPartSize.sectors()
 			}
 
+			if entry.size() > maxDirectoryRecordSize {
+				return fmt.Errorf("name of %s is too long for a directory record", fileItem.path)
+			}
+
 			if joliet {
 				item.dirEntryJoliet = append(item.dirEntryJoliet, entry)
 			} else {
@@ -378,6 +382,10 @@ func (viso *VirtualISO) makeDirEntries(item *dirItem, joliet bool) error {
 			VolumeSequenceNumber: 1,
 			RecordingDateTime:    recordingTimestamp(dirItem.modTime),
 			Identifier:           makeIdentifier(dirItem.name, joliet),
+		}
+
+		if entry.size() > maxDirectoryRecordSize {
+			return fmt.Errorf("name of %s is too long for a directory record", dirItem.path)
 		}
 
 		if joliet {
